@@ -33,7 +33,7 @@ struct VariableTag {
     SizeT   Offset{0};
     SizeT16 Length{0};
     SizeT8  IDLength{0};
-    SizeT8  Level{0};
+    SizeT   Level{0};
 };
 
 } // namespace Tags
